@@ -27,7 +27,9 @@ RULE = (
     "actions' form_request. Exhaustive: every sequence of fixed depth over a reduced alphabet after each of four "
     "prefixes (none / two sessions of one user / three sessions / stale client handle); random: Hypothesis sequences "
     "to depth 30 plus a steered family (two or three sessions on one target, the first kept busy by commands at intervals "
-    "below the time-out while a later one idles past it and is then used). Non-trivial = the case sends a remote command (both ends ON, terminals running) from a client to a "
+    "below the time-out while a later one idles past it and is then used; an account holding remote sessions is disabled at the session "
+    "limit before further logins; an account holding the local and remote sessions loses the local session to another "
+    "account). Non-trivial = the case sends a remote command (both ends ON, terminals running) from a client to a "
     "target on which a session of that client was ended by logout, time-out or password change, or attempts a login "
     "with valid credentials while max_remote_sessions are open; distinct by case hash."
 )
@@ -485,6 +487,8 @@ def run_case(case: Dict) -> CaseResult:
             if t_on and reason is not None and after != before:
                 res.violate("failed-local-login-changed-user", f"{when}: current_local_user {before!r} -> {after!r}")
             res.label("local:executed" if effect else f"local:refused:{why or 'terminal-stopped'}")
+            if effect and before is not None and before != user and any(x.user == before for x in m.live(t).values()):
+                res.label("local:takeover-while-previous-user-has-remote-sessions")
             reconcile(k, when, {})
             continue
 
@@ -510,6 +514,8 @@ def run_case(case: Dict) -> CaseResult:
             if reason is None and t_on and t_term and lo >= MAX_SESSIONS:
                 nontrivial = True
                 res.label("login:at-limit")
+                if any(m.users[t].get(x.user, {}).get("disabled") for x in m.live(t).values()):
+                    res.label("login:at-limit-with-sessions-of-disabled-account")
             ok, resp = apply(k, form("login", node=host(c), user=user, password=pw, ip=ip_of(t)), when)
             if not ok:
                 break
@@ -699,6 +705,54 @@ def case_strategy(draw, max_len: int, excl: List[str]):
 
 
 @st.composite
+def acct_session_case(draw, excl: List[str]):
+    """Steered shapes around accounts that HOLD sessions: (a) an account with open remote sessions is disabled while
+    the target is at / near max_remote_sessions, then more logins arrive (its sessions stay open, so they still count);
+    (b) an account holds the local session and remote sessions on the target, then another account logs in locally
+    (the remote sessions must survive and still execute commands)."""
+    n = draw(st.sampled_from([2, 2, 3]))
+    T = draw(st.integers(3, 5))
+    t = draw(st.integers(0, n - 1))
+    clients = [c for c in range(n) if c != t]
+    cl = st.sampled_from(clients)
+    bob = [None] * n
+    bob[t] = draw(st.sampled_from([False, True, [False, "two words "]]))
+    noise = op_strategy(n)
+    ops = draw(st.lists(noise, max_size=1))
+    if draw(st.booleans()):  # (a)
+        holder = draw(st.sampled_from(["bob", "bob", "admin"]))
+        other = "admin" if holder == "bob" else "bob"
+        k = draw(st.integers(1, 3))
+        ops += [["login", draw(cl), t, holder, "@cur"] for _ in range(k)]
+        ops += [["login", draw(cl), t, other, "@cur"] for _ in range(draw(st.integers(0, 3 - k)))]
+        if holder == "admin":  # the last admin cannot be disabled: give the node a second admin first
+            ops.append(["add_user", t, "bob ", "admin1", True])
+        if draw(st.integers(0, 3)) == 0:
+            ops.append(draw(noise))
+        ops.append(["disable", t, holder])
+        ops.append(["cmd", draw(cl), t])
+        ops += [["login", draw(cl), t, other, "@cur"] for _ in range(draw(st.integers(1, 3)))]
+        ops.append(["cmd", draw(cl), t])
+    else:  # (b)
+        x = draw(st.sampled_from(["admin", "bob"]))
+        y = "bob" if x == "admin" else "admin"
+        a = draw(cl)
+        first = [["login", a, t, x, "@cur"] for _ in range(draw(st.integers(1, 2)))] + [["local", t, x, "@cur"]]
+        ops += draw(st.permutations(first))
+        if draw(st.booleans()):
+            ops.append(["login", draw(cl), t, y, "@cur"])
+        if draw(st.integers(0, 2)) == 0:
+            ops.append(["tick", draw(st.integers(1, T - 1))])
+        ops.append(["local", t, y, draw(st.sampled_from(["@cur", "@cur", "@cur", "@cur+sp", "zz"]))])
+        ops.append(["cmd", a, t])
+        if draw(st.booleans()):
+            ops.append(["local", t, x, "@cur"])
+            ops.append(["cmd", a, t])
+    ops.extend(draw(st.lists(noise, max_size=3)))
+    return {"n": n, "T": T, "dur": draw(st.sampled_from([0, 0, 0, 1])), "bob": bob, "ops": ops, "excl": list(excl)}
+
+
+@st.composite
 def busy_idle_case(draw, excl: List[str]):
     """Steered shape: two (or three) sessions on one target, the one that logged in first keeps sending commands at
     intervals shorter than the time-out while a later one idles past its time-out and is then used; a little random
@@ -743,7 +797,6 @@ PREFIXES = [[], [LOGIN, LOGIN], [LOGIN, LOGIN, LOGIN], STALE]
 EXH_ALPHABET = [
     LOGIN,
     ["login", 0, 1, "admin", "admin"],  # literal: wrong after a password change
-    ["login", 0, 1, "admin", "zz"],
     ["cmd", 0, 1],
     ["logoff", 0, 1],
     ["logoff", 1, 0],
@@ -824,6 +877,23 @@ CRED_ALPHABET = [
 ]
 
 
+# held-sessions block: bob (not admin, password admin1) is declared on h1 and already holds two remote sessions from h0;
+# accounts that hold sessions are disabled at the limit / lose the local session to another account
+HELD_BOB = [None, False]
+HELD_PREFIX = [["login", 0, 1, "bob", "@cur"], ["login", 0, 1, "bob", "@cur"]]
+HELD_ALPHABET = [
+    ["login", 0, 1, "bob", "@cur"],
+    ["login", 0, 1, "admin", "@cur"],
+    ["disable", 1, "bob"],
+    ["cmd", 0, 1],
+    ["logoff", 0, 1],
+    ["local", 1, "bob", "@cur"],
+    ["local", 1, "admin", "@cur"],
+    ["chpw", 1, "bob", "@cur", "admin12"],
+    ["tick", 3],
+]
+
+
 def exhaustive_plan(tier: str):
     alphabet = EXH_ALPHABET if tier == "quick" else EXH_ALPHABET + EXH_EXTRA
     depth = 3 if tier == "quick" else 4
@@ -840,6 +910,9 @@ def exhaustive_cases(tier: str, excl: List[str]):
         yield {"n": 2, "T": 3, "dur": 0, "bob": [None, False], "ops": [list(o) for o in seq], "excl": list(excl)}
     for seq in itertools.product(CRED_ALPHABET, repeat=2 if tier == "quick" else 3):
         yield {"n": 2, "T": 3, "dur": 0, "bob": CRED_BOB, "ops": [list(o) for o in seq], "excl": list(excl)}
+    for seq in itertools.product(HELD_ALPHABET, repeat=3 if tier == "quick" else 4):
+        yield {"n": 2, "T": 3, "dur": 0, "bob": HELD_BOB, "ops": [list(o) for o in HELD_PREFIX] + [list(o) for o in seq],
+               "excl": list(excl)}
     for pre in BUSY_PREFIXES:
         for seq in itertools.product(BUSY_ALPHABET, repeat=3 if tier == "quick" else 5):
             yield {"n": 3, "T": 3, "dur": 0, "bob": [], "ops": [list(o) for o in pre] + [list(o) for o in seq],
@@ -860,12 +933,16 @@ def worker(ctx: Ctx):
         f"an account on h1 whose stored password ends in a space, all sequences of depth "
         f"{2 if ctx.tier == 'quick' else 3} over a {len(CRED_ALPHABET)}-symbol credentials alphabet (remote and local logins "
         f"whose user name or password is a near-miss of the stored one: leading / trailing space, tab, case, prefix, "
-        f"suffix, empty, stripped; password change to a value with a leading space; add-user of 'bob '); plus, n=3, "
+        f"suffix, empty, stripped; password change to a value with a leading space; add-user of 'bob '); plus, after two "
+        f"remote logins of a second (non-admin) account on h1, all sequences of depth {3 if ctx.tier == 'quick' else 4} "
+        f"over a {len(HELD_ALPHABET)}-symbol alphabet (logins of either account, disable the session holder, command, "
+        f"logoff, local command as either account, password change, tick 3); plus, n=3, "
         f"after two logins on h1 from two clients (both login orders), all sequences of depth "
         f"{3 if ctx.tier == 'quick' else 5} over a {len(BUSY_ALPHABET)}-symbol alphabet (command via either session, failing "
         f"command via the first, tick 1/2/3, logoff, login) -- one session kept busy while the other idles past the time-out"
     )
-    nrand = 180 if ctx.tier == "quick" else 2000
+    nrand = 150 if ctx.tier == "quick" else 2000
     hyp_run(ctx, case_strategy(30, excl), run_case, nrand)
-    nsteer = 60 if ctx.tier == "quick" else 600
+    nsteer = 50 if ctx.tier == "quick" else 600
     hyp_run(ctx, busy_idle_case(excl), run_case, nsteer, sub=1)
+    hyp_run(ctx, acct_session_case(excl), run_case, nsteer, sub=2)
